@@ -231,12 +231,12 @@ class Capture(BObl):
             'block).  The hand-written documents take the complete product, random documents a rotating window.  Oracle: '
             'the element found by its names in view() has the written text as comment (blanks around each line ignored); '
             'with both, the trailing text.')
-    bound = 'quick: 5 fixed documents x 170 combinations + 30 random x 28; thorough: 5 x 170 (x6 targets) + 1200 random x 40'
+    bound = 'quick: 5 fixed documents x 170 combinations + 24 random x 28; thorough: 5 x 170 (x6 targets) + 1200 random x 40'
     budget = {'quick': 20.0, 'thorough': 700.0}
     chunk = 24
 
     def cases(self, tier, seed):
-        docs = docs_for(tier, seed, 30, 1200, 141)
+        docs = docs_for(tier, seed, 24, 1200, 141)
         rng = random.Random(seed * 131 + 14)
         L = len(CAPTURE_COMBOS)
         window = 28 if tier == 'quick' else 40
@@ -415,12 +415,12 @@ class Inert(BObl):
             '"," at a line end and on own lines.  Every position of the hand-written documents once, sampled positions of random documents; plus '
             'cases with 2-6 comments at once.  Text from 20 single-line bodies (quotes, braces, brackets, keywords) and '
             '/* */ blocks (also multi-line on own lines).  Oracle: view() with comment fields blanked is unchanged.')
-    bound = 'quick: 5 fixed documents (all positions) + 24 random x 16 positions + 150 multi; thorough: 1000 random x 40 + 6000 multi'
+    bound = 'quick: 5 fixed documents (all positions) + 20 random x 16 positions + 120 multi; thorough: 1000 random x 40 + 6000 multi'
     budget = {'quick': 20.0, 'thorough': 700.0}
     chunk = 24
 
     def cases(self, tier, seed):
-        docs = docs_for(tier, seed, 24, 1000, 142)
+        docs = docs_for(tier, seed, 20, 1000, 142)
         rng = random.Random(seed * 137 + 15)
         per = 16 if tier == 'quick' else 40
         for k, desc in enumerate(docs):
@@ -438,7 +438,7 @@ class Inert(BObl):
                 idx = (list(first.values()) + rest)[:per]
             for i in idx:
                 yield {'doc': desc, 'stripped': stripped, 'at': [i], 'text': rng.randrange(10 ** 6)}
-        n_multi = 150 if tier == 'quick' else 6000
+        n_multi = 120 if tier == 'quick' else 6000
         for j in range(n_multi):
             desc = docs[rng.randrange(len(docs))]
             stripped = rng.random() < 0.5
@@ -647,13 +647,13 @@ class Render(BObl):
             'comment line is a //- resp. --line; the non-comment, non-blank lines equal those of the rendering with '
             'comments cleared; PyDBML(db.dbml) has the same comment on every element found by name.  A failure is '
             'attributed to an element kind by re-running with one comment at a time.')
-    bound = 'quick: 600 models (tiny/small/medium); thorough: 20000'
+    bound = 'quick: 480 models (tiny/small/medium); thorough: 20000'
     budget = {'quick': 20.0, 'thorough': 700.0}
     chunk = 16
 
     def cases(self, tier, seed):
         rng = random.Random(seed * 139 + 16)
-        n = 600 if tier == 'quick' else 20000
+        n = 480 if tier == 'quick' else 20000
         for k in range(len(FIXED_SP)):
             yield {'doc': ['fixed', k % 2 == 1, 0], 'c': rng.randrange(10 ** 6), 'p': (0.3, 0.6, 0.9, 1.0)[k]}
         for i in range(n):
